@@ -233,7 +233,7 @@ func (reqDom) Gen(r *gen.R, tier string, emit func(string)) {
 		}
 		apply := ""
 		for j := 0; j < 5; j++ {
-			c := r.Pick([]string{"-", "-", "o", "o", "e"})
+			c := r.Pick([]string{"-", "-", "o", "o", "e", "-", "-", "o", "o", "e", "b", "n"})
 			if j == 0 && r.Chance(1, 6) {
 				c = "z"
 			}
@@ -466,7 +466,39 @@ func seenDesc(kind string, r *res.Request) string {
 		return string(b)
 	}
 	return strings.Join([]string{kind, r.ResourceName(), r.Method(), r.Query(), r.CID(), wire.Bool(r.IsHTTP()),
-		opt(r.RawParams()), opt(r.RawToken()), strings.Join(kv, ","), "pq=" + wire.Bool(parsedQueryAgrees(r))}, "|")
+		opt(r.RawParams()), opt(r.RawToken()), strings.Join(kv, ","), "pq=" + wire.Bool(parsedQueryAgrees(r)), "md=" + wire.Bool(metaAgrees(r))}, "|")
+}
+
+// the connection metadata of the request being delivered (nil: none was sent). Written before the
+// message is delivered, read by the handler on a worker.
+type connMeta struct {
+	header            map[string][]string
+	host, remote, uri string
+}
+
+var sentMeta *connMeta
+
+// metaAgrees: header, host, remote address and URI reach the handler exactly as sent.
+func metaAgrees(r *res.Request) bool {
+	m := sentMeta
+	if m == nil {
+		return len(r.Header()) == 0 && r.Host() == "" && r.RemoteAddr() == "" && r.URI() == ""
+	}
+	if r.Host() != m.host || r.RemoteAddr() != m.remote || r.URI() != m.uri || len(r.Header()) != len(m.header) {
+		return false
+	}
+	for k, v := range m.header {
+		got, ok := r.Header()[k]
+		if !ok || len(got) != len(v) {
+			return false
+		}
+		for i := range v {
+			if got[i] != v[i] {
+				return false
+			}
+		}
+	}
+	return true
 }
 
 // parsedQueryAgrees: Request.ParseQuery is url.ParseQuery of the query as sent, keeping the pairs
@@ -565,6 +597,10 @@ func (reqDom) Exec(a []string) string {
 				switch c {
 				case 'e':
 					return nil, applyErr
+				case 'b': // failed after a partial apply: a revert map and the error
+					return map[string]interface{}{"old": 1}, applyErr
+				case 'n':
+					return nil, res.ErrNotFound
 				case 'z':
 					return map[string]interface{}{}, nil
 				}
@@ -574,8 +610,11 @@ func (reqDom) Exec(a []string) string {
 		if c := ap(1); c != '-' {
 			opts = append(opts, res.ApplyAdd(func(r res.Resource, v interface{}, idx int) error {
 				log.add("A@add")
-				if c == 'e' {
+				if c == 'e' || c == 'b' {
 					return applyErr
+				}
+				if c == 'n' {
+					return res.ErrNotFound
 				}
 				return nil
 			}))
@@ -586,14 +625,23 @@ func (reqDom) Exec(a []string) string {
 				if c == 'e' {
 					return nil, applyErr
 				}
+				if c == 'b' {
+					return 1, applyErr
+				}
+				if c == 'n' {
+					return nil, res.ErrNotFound
+				}
 				return 1, nil
 			}))
 		}
 		if c := ap(3); c != '-' {
 			opts = append(opts, res.ApplyCreate(func(r res.Resource, v interface{}) error {
 				log.add("A@create")
-				if c == 'e' {
+				if c == 'e' || c == 'b' {
 					return applyErr
+				}
+				if c == 'n' {
+					return res.ErrNotFound
 				}
 				return nil
 			}))
@@ -603,6 +651,12 @@ func (reqDom) Exec(a []string) string {
 				log.add("A@delete")
 				if c == 'e' {
 					return nil, applyErr
+				}
+				if c == 'b' {
+					return 1, applyErr
+				}
+				if c == 'n' { // "already gone": an error like any other, nothing is announced
+					return nil, res.ErrNotFound
 				}
 				return 1, nil
 			}))
@@ -695,6 +749,12 @@ func (reqDom) Exec(a []string) string {
 			payload = []byte(`null`)
 		case "o", "ow":
 			m := map[string]interface{}{"cid": cid, "isHttp": http, "query": query}
+			// connection metadata, with header names that are not in canonical form
+			sentMeta = &connMeta{
+				header: map[string][]string{"x-request-id": {"abc"}, "X-Request-Id": {"def"}, "ETag": {"v1"}, "Cache-Control": {"no-cache", "x"}, "Empty": {}},
+				host:   "Example.COM:8080", remote: "[::1]:4711", uri: "/api/x?y=%20z",
+			}
+			m["header"], m["host"], m["remoteAddr"], m["uri"] = sentMeta.header, sentMeta.host, sentMeta.remote, sentMeta.uri
 			if params != "-" {
 				m["params"] = json.RawMessage(params)
 			}
@@ -705,6 +765,9 @@ func (reqDom) Exec(a []string) string {
 			if pk == "ow" {
 				payload = append([]byte(" \n\t"), payload...)
 			}
+		}
+		if pk != "o" && pk != "ow" {
+			sentMeta = nil
 		}
 		replyTo := reply
 		if a[0] == "reqn" {
